@@ -4,15 +4,17 @@
       - on success the remainder is a suffix of the input (consumed ++ rest = input);
       - decode_mut leaves the caller's slice untouched on failure and commits exactly
         decode's remainder on success.
-      - NO RUN-TIME PANIC (Proofs/DecodeSafe.v): for every file whose declarations use
-        anything but arrays and typedef fields of a sized custom-field type (bit-fields,
-        optional fields, struct fields, payload / body, padding, inheritance, struct
-        recursion), every input, overflow mode and fuel, the emitted decoder yields a
-        value, a DecodeError or a refusal of the generator -- never BufUnderflow,
-        SliceIndex, SplitAt, ArithOverflow, DivZero...  The two excluded constructs are
-        exactly where the listed findings F02, F03, F19 live; for arrays the property is
-        decided by the correspondence check.  For declarations made of bit-fields only,
-        non-termination of the model is excluded as well. *)
+      - NO RUN-TIME PANIC (Proofs/DecodeSafe.v, Proofs/DecodeSafeArrays.v): for every file of a
+        decidable class -- bit-fields, optional fields, struct fields, payload / body,
+        padding, inheritance, struct recursion, and arrays of scalar / enum / struct elements
+        with a static count, a size field, a count field whose product with the element
+        width cannot pass 2^64, or no delimiter, padded or not -- every input, overflow mode
+        and fuel, the emitted decoder yields a value, a DecodeError or a refusal of the
+        generator: never BufUnderflow, SliceIndex, SplitAt, ArithOverflow, DivZero...
+        Outside the class are exactly the constructs where the listed findings F02, F03, F19
+        live (arrays under an element-size field, wide count fields, sized custom-field
+        typedefs); for them the property is decided by the correspondence check.  For
+        declarations made of bit-fields only, non-termination of the model is excluded too. *)
 From Coq Require Import NArith List String Bool.
 From Coq Require Import Strings.Byte.
 From PDL Require Import Base.Bits Base.Outcome Lang.Ast Lang.Sexp Analyzer.Schema
